@@ -193,3 +193,11 @@ theorem C10_state_is_in_the_object : LA.StateFacts.ofPkg "" = [] := by decide
 off the running library through reflection (regenerated, see harness/cmd/extract/reasmfacts.go): 0 … 2^20+1, with
 the values around 2^16 and 2^17. The model's `new` stores its argument unchanged. -/
 theorem C10_window_is_the_one_given : ∀ p ∈ LA.Gen.ReasmFacts.windowStored, p.2 = p.1 := by decide
+
+/-- The third cause, "its timeout had elapsed", is decided on the clock the model assumes: a Reassembler that buffers
+one event holds a non-zero `time.Time`, and every such value reachable from it carries a monotonic clock reading (read
+off the running library through reflection on every run; see `C19_timeout_on_the_monotonic_clock`). A deadline kept as
+a wall-clock number would deliver every buffered event, with none of the three causes, when the system clock is
+stepped forward. -/
+theorem C10_timeout_on_the_monotonic_clock :
+    LA.Gen.ReasmFacts.deadlinesMonotonic ≠ [] ∧ LA.Gen.ReasmFacts.deadlinesMonotonic.all (· == true) = true := by decide
